@@ -401,6 +401,41 @@ func init() {
 	}
 }
 
+func init() {
+	// "later connects of the same client keep using TLS on that port": a policy's lifetime is counted from the END of the
+	// last connection made under it (IRCv3 sts: the expiry is re-based at disconnection), so a TLS session that outlasts
+	// the duration and is then closed cleanly leaves an UNEXPIRED policy: a failing redial is an upgrade error, never a
+	// fallback to plaintext.
+	runners["stsrebase"] = func(c *Ctx, in map[string]string) {
+		hin := hexIn(in)
+		cfg := girc.Config{Server: "irc.example.org", Port: 6667, Nick: "me", User: "me", TLSConfig: &tls.Config{InsecureSkipVerify: true}}
+		cl := girc.New(cfg)
+		girc.VerifSetSTS(cl, 6697, 1, 0, -1) // stored policy: port 6697, one second, just received
+		p := newPeer("tls", "WUSER", "S:srv CAP * LS :multi-prefix", "WCAP REQ", "S:srv CAP * ACK :multi-prefix", "WCAP END", "S:srv 001 me :Welcome")
+		d := &scriptDialer{peers: []*peerScript{p, newPeer("fail"), newPeer("sniff")}}
+		done := make(chan string, 1)
+		go func() { done <- connectWithTimeout(cl, d) }()
+		time.Sleep(2300 * time.Millisecond) // the session outlasts the policy's duration
+		cl.Close()
+		r1 := <-done
+		d.wg.Wait()
+		r2 := connectWithTimeout(cl, d) // the dial fails
+		d.wg.Wait()
+		r3 := connectWithTimeout(cl, d)
+		d.wg.Wait()
+		impl := fmt.Sprintf("hello1=%v r1=%s r2=%s dials=%v r3=%s", isHello(p.result.firstBytes), r1, r2, d.dials, r3)
+		if !isHello(p.result.firstBytes) || r1 != "nil" {
+			c.R.Mismatch("sts.rebase_setup", hin, impl, "first connection: TLS through the stored policy, closed cleanly")
+			return
+		}
+		if r2 != "stsfail" || len(d.dials) < 3 || d.dials[1] != "irc.example.org:6697" || d.dials[2] != "irc.example.org:6697" {
+			c.R.Violation("sts.policy_dropped_after_session", hin, impl, "r2=stsfail, every dial to irc.example.org:6697",
+				"after a cleanly closed TLS session the policy is unexpired (its lifetime restarts at disconnection): a failed dial must return an upgrade error and later connects keep using the TLS port")
+		}
+		c.R.Count("stsrebase", true, "rebase")
+	}
+}
+
 func lastOf(l []string) string {
 	if len(l) == 0 {
 		return ""
@@ -448,5 +483,7 @@ func runC10(c *Ctx) {
 		r.Count("tls:"+adv, true, "tls-matrix")
 		r.Traces++
 	}
+	c.run("stsrebase", map[string]string{"duration": "1", "session": "2.3s"})
+	r.Traces++
 	r.Sample(map[string]string{"scenario": "plaintext, server ACKs sts=port=6697", "expected": "no line after ACK; redial irc.example.org:6697; first bytes 16 03"})
 }
